@@ -2,11 +2,17 @@ package compaction
 
 import (
 	"bytes"
+	"sync"
 	"time"
 )
 
-// TombstoneTracker implements the TombstoneManager interface
+// TombstoneTracker implements the TombstoneManager interface.
+// It is safe for concurrent use: deletes arrive from any number of client
+// goroutines while the compaction goroutine queries and garbage-collects it.
 type TombstoneTracker struct {
+	// Protects deletions and preserveForever
+	mu sync.RWMutex
+
 	// Map of deleted keys with deletion timestamp
 	deletions map[string]time.Time
 
@@ -28,18 +34,27 @@ func NewTombstoneTracker(retentionPeriod time.Duration) *TombstoneTracker {
 
 // AddTombstone records a key deletion
 func (t *TombstoneTracker) AddTombstone(key []byte) {
+	t.mu.Lock()
+	defer t.mu.Unlock()
+
 	t.deletions[string(key)] = time.Now()
 }
 
 // ForcePreserveTombstone marks a tombstone to be preserved indefinitely
 // This is primarily used for testing purposes
 func (t *TombstoneTracker) ForcePreserveTombstone(key []byte) {
+	t.mu.Lock()
+	defer t.mu.Unlock()
+
 	t.preserveForever[string(key)] = true
 }
 
 // ShouldKeepTombstone checks if a tombstone should be preserved during compaction
 func (t *TombstoneTracker) ShouldKeepTombstone(key []byte) bool {
 	strKey := string(key)
+
+	t.mu.RLock()
+	defer t.mu.RUnlock()
 
 	// First check if this key is in the preserveForever map
 	if t.preserveForever[strKey] {
@@ -58,6 +73,9 @@ func (t *TombstoneTracker) ShouldKeepTombstone(key []byte) bool {
 
 // CollectGarbage removes expired tombstone records
 func (t *TombstoneTracker) CollectGarbage() {
+	t.mu.Lock()
+	defer t.mu.Unlock()
+
 	now := time.Now()
 	for key, timestamp := range t.deletions {
 		if now.Sub(timestamp) > t.retention {
